@@ -117,6 +117,7 @@ pub struct Exec<'a, H: HashAlgorithm> {
     pub nomt: Option<Nomt<H>>,
     pub opts: Opts,
     overlays: BTreeMap<usize, OvNode>,
+    prepared: BTreeMap<usize, (nomt::FinishedSession, State, State, Vec<(Key, Option<VSpec>)>)>,
     /// id of the overlay whose commit was the last commit (marker semantics).
     last_committed_overlay: Option<usize>,
     step: usize,
@@ -144,6 +145,7 @@ impl<'a, H: HashAlgorithm> Exec<'a, H> {
             nomt: None,
             opts: scen.opts.clone(),
             overlays: BTreeMap::new(),
+            prepared: BTreeMap::new(),
             last_committed_overlay: None,
             step: 0,
             cur_trie: None,
@@ -569,6 +571,9 @@ impl<'a, H: HashAlgorithm> Exec<'a, H> {
             if self.scen.checks.multiproof { self.check_multiproof(&proofs, &st, &trie, self.scen.run_seed.wrapping_add(self.step as u64))?; }
         }
         if self.scen.checks.decode || self.scen.checks.accounting { self.check_decode()?; }
+        if let Some(every) = self.scen.extra.get("rollback_history_every").and_then(|x| x.as_u64()) {
+            if every > 0 && (self.step as u64 + 1) % every == 0 { let p = self.prop.clone(); self.check_rollback_history(&p)?; }
+        }
         Ok(())
     }
 
@@ -758,7 +763,67 @@ impl<'a, H: HashAlgorithm> Exec<'a, H> {
                     }
                 }
             }
+            Step::Prepare { id, batch } => {
+                let base = self.model.cur.clone();
+                let Some((fin, new_state, writes, _)) = self.run_session(batch, None)? else { unreachable!() };
+                self.prepared.insert(*id, (fin, base, new_state, writes));
+            }
+            Step::DropPrepared { id } => { self.prepared.remove(id); }
+            Step::CommitPrepared { id, nonblocking } => {
+                let Some((fin, base, new_state, writes)) = self.prepared.remove(id) else { rep!(self).steps_done = i + 1; return Ok(()); };
+                let expect_ok = base == self.model.cur;
+                if expect_ok { self.snap(new_state.clone(), true); }
+                let res = if *nonblocking {
+                    match fin.try_commit_nonblocking(self.nomt()) {
+                        Ok(None) => Ok(()),
+                        Ok(Some(_)) => return Err(self.v("C15", "nonblocking-handed-back", "try_commit_nonblocking handed the changeset back although no session is alive".into())),
+                        Err(e) => Err(e),
+                    }
+                } else { fin.commit(self.nomt()) };
+                match (res, expect_ok) {
+                    (Ok(()), true) => {
+                        self.swallowed()?;
+                        self.snap_ok();
+                        self.model.commit(&writes);
+                        self.last_committed_overlay = None;
+                        rep!(self).commits += 1;
+                        self.after_commit_checks()?;
+                    }
+                    (Err(e), true) => { self.op_failed(e, new_state)?; }
+                    (Err(_), false) => {
+                        rep!(self).notes.push(format!("step {i}: stale changeset rejected as expected"));
+                        if self.nomt().is_poisoned() { return Err(self.v("C12", "rejected-attempt-poisoned", "a rejected stale commit poisoned the handle".into())); }
+                        self.no_effect_checks()?;
+                    }
+                    (Ok(()), false) => return Err(self.v("C12", "stale-commit-accepted", format!("commit of prepared changeset {id} accepted although its base is no longer the current state"))),
+                }
+            }
+            Step::TryWhileSession { id, overlay } => {
+                let holder = SessGuard::new(self.nomt.as_ref().unwrap().begin_session(SessionParams::default()), self.opts.warm_up);
+                if *overlay {
+                    let Some(node) = self.overlays.get_mut(id) else { rep!(self).steps_done = i + 1; return Ok(()); };
+                    if node.status != OvStatus::Live { rep!(self).steps_done = i + 1; return Ok(()); }
+                    let Some(ov) = node.overlay.take() else { rep!(self).steps_done = i + 1; return Ok(()); };
+                    match ov.try_commit_nonblocking(self.nomt.as_ref().unwrap()) {
+                        Ok(Some(back)) => { self.overlays.get_mut(id).unwrap().overlay = Some(back); }
+                        Ok(None) => return Err(self.v("C12", "nonblocking-commit-with-live-session", "Overlay::try_commit_nonblocking committed although a session was alive for the whole call".into())),
+                        Err(_) => { let n = self.overlays.get_mut(id).unwrap(); n.consumed = true; n.status = OvStatus::Dropped; }
+                    }
+                } else {
+                    let Some((fin, base, new_state, writes)) = self.prepared.remove(id) else { rep!(self).steps_done = i + 1; return Ok(()); };
+                    match fin.try_commit_nonblocking(self.nomt.as_ref().unwrap()) {
+                        Ok(Some(back)) => { self.prepared.insert(*id, (back, base, new_state, writes)); }
+                        Ok(None) => return Err(self.v("C12", "nonblocking-commit-with-live-session", "try_commit_nonblocking committed although a session was alive for the whole call".into())),
+                        Err(_) => {}
+                    }
+                }
+                // the holder still sees its state; then nothing may have changed
+                { let st = self.model.cur.clone(); self.check_values(&st, Some(&holder)).map_err(|Viol(mut v)| { v.property = "C12".into(); v.class = format!("deferred-attempt-{}", v.class); Viol(v) })?; }
+                drop(holder);
+                self.no_effect_checks()?;
+            }
             Step::Reopen { opts } => {
+                self.prepared.clear();
                 let pre = self.observe_all()?;
                 // overlays do not survive a handle (their commit-order marker is per handle)
                 for (_, n) in self.overlays.iter_mut() { if n.status == OvStatus::Live { n.overlay = None; n.status = OvStatus::Dropped; } }
